@@ -46,6 +46,7 @@ type verifKMon struct {
 	consumed               int32
 	deliveredAtFire        int32
 	readerDone             int32
+	acked                  int32
 	opFree                 int32
 }
 
@@ -122,12 +123,24 @@ func verifCloseCB(i int) CloseCallback {
 	}
 }
 
+type verifAddr struct{}
+
+func (verifAddr) Network() string { return "tcp" }
+func (verifAddr) String() string  { return "10.0.0.1:80" }
+
+func verifNetFD() *netFD {
+	nfd := newNetFD(7, 2, 1, "tcp")
+	nfd.localAddr = verifAddr{}
+	nfd.remoteAddr = verifAddr{}
+	return nfd
+}
+
 // verifNewConn runs the real connection.init over a ghost descriptor.
 func verifNewConn(cfg verifConnCfg) *connection {
 	verifK = &verifKMon{}
 	runner.RunTask = verifRunTaskSpawn
 	pollmanager = newManager(1)
-	nfd := newNetFD(7, 2, 1, "tcp")
+	nfd := verifNetFD()
 	c := &connection{}
 	opts := &options{}
 	if cfg.onRequest {
@@ -167,7 +180,7 @@ func verifNewConnOnConnect(h func(ctx context.Context, c Connection) error) *con
 	verifK = &verifKMon{}
 	runner.RunTask = verifRunTaskSpawn
 	pollmanager = newManager(1)
-	nfd := newNetFD(7, 2, 1, "tcp")
+	nfd := verifNetFD()
 	c := &connection{}
 	opts := &options{}
 	opts.onRequest = h
